@@ -31,13 +31,17 @@ struct Obs {
     err: Vec<u8>,
 }
 
-fn run_once(bin: &str, cwd: &str, args: &[String], timeout: Duration) -> Result<Obs, String> {
+/// The ambient environment is NOT an input of the commands observed here (`--now` is always passed): the runs of one case rotate
+/// through time zones 26 hours apart, so that the local calendar date differs between them at every instant.
+const ZONES: [&str; 3] = ["UTC", "XXX12", "XXX-14"];
+
+fn run_once(bin: &str, cwd: &str, args: &[String], timeout: Duration, tz: &str) -> Result<Obs, String> {
     let mut child = Command::new(bin)
         .args(args)
         .current_dir(cwd)
         .env_clear()
         .env("RUST_BACKTRACE", "0")
-        .env("TZ", "UTC")
+        .env("TZ", tz)
         .env("LANG", "C")
         .stdin(Stdio::null())
         .stdout(Stdio::piped())
@@ -205,8 +209,8 @@ pub fn run(args: &[String], out: &mut dyn Write) -> i32 {
         }
         let mut runs: Vec<Obs> = Vec::with_capacity(n);
         let mut bad: Option<String> = None;
-        for _ in 0..n {
-            match run_once(&bin, &cwd, &cargs, Duration::from_millis(timeout_ms)) {
+        for i in 0..n {
+            match run_once(&bin, &cwd, &cargs, Duration::from_millis(timeout_ms), ZONES[i % ZONES.len()]) {
                 Ok(o) => runs.push(o),
                 Err(e) => {
                     bad = Some(e);
